@@ -18,7 +18,7 @@ def register(PROPS):
                  'also two tasks per checkpoint), parsed again and compared: attributes, remaining occurrences (<= 200, up to year 2099) '
                  'and durations; the same through echsq\'s own add_fd()/massage() and through the echse binaries; and one event is '
                  'written with every padding length 0..4300 so that every write call site meets the end of the 4 KiB writer buffer at '
-                 'every offset.  Exhaustive within that bound; anything else is reported.',
+                 'every offset.  Exhaustive within that bound; anything else is reported.  A many-UIDs driver parses up to 1000 (thorough 5000) events with distinct UIDs of five patterns in one process and requires every task to read, print and re-read under the UID it was submitted with (the UID intern table has several levels).',
         'note': 'Both streams of a round trip come from the code under test: whether the expansion itself is right is C01\'s claim. '
                 'Sub-daily frequencies are taken with single BY parts only (sparse combinations are C09\'s work-bound subject). '
                 'Properties outside the README table (DESCRIPTION, X-GA-*) are carried along; DESCRIPTION is compared in the '
